@@ -58,11 +58,11 @@ typedef struct rxv_string { const char* data; size_t size; unsigned long long id
    exact when it compares the whole stored string (pos == 0, len >= size): 0 iff same identity; when it looks at a proper
    part of the stored string its result is unknown (any value) - a caller that relies on it for equality is then refuted. */
 unsigned long long __CPROVER_uninterpreted_rxv_key_id(const char*, size_t);
-int rxv_nondet_int(void);
+int nondet_int(void);
 static inline void rxv_string_assign(rxv_string* s, const char* p, size_t n) { s->data = p; s->size = n; s->id = __CPROVER_uninterpreted_rxv_key_id(p, n); }
 static inline int rxv_string_compare(const rxv_string* s, size_t pos, size_t len, const char* p, size_t n) {
 	if (pos == 0 && len >= s->size) return s->id == __CPROVER_uninterpreted_rxv_key_id(p, n) ? 0 : 1;
-	return rxv_nondet_int();
+	return nondet_int();
 }
 #define RXV_SWAP(a, b) do { __typeof__(a) rxv_tmp_ = (a); (a) = (b); (b) = rxv_tmp_; } while (0)
 #define RXV_MAX(a, b) ((a) > (b) ? (a) : (b))
